@@ -16,5 +16,5 @@ for d in sorted((x for x in os.listdir("seeded") if os.path.isdir(f"seeded/{x}")
     fe = "detected" if fe == "detected" else f"**{fe} → check strengthened**" if m.get("strengthening") and not m["strengthening"].startswith("none") else f"**{fe}**"
     needs = m["needs_to_manifest"]
     needs = needs[:230] + ("…" if len(needs) > 230 else "")
-    now = "`" + sig + "`" if det["detected"] else "not detected"
+    now = "`" + sig + "`" if det["detected"] else "not claimed for this property (below)"
     print(f"| {d} | {m['title']} | {needs.replace('|', '/')} | {fe} | {now} |")
